@@ -21,8 +21,6 @@ requests:
        (`(bytes[blob]kids…)`, offsets masked) | none
   c17.colr.expect <hex COLR table> G <gid> | Y <layer index>, then the plan as in c17.colr (G M P L V I D)
        response: the tree the theorems promise for that glyph / layer in the subset (`expectTree`) | none
-  c17.colr.v0 <hex COLR table> <gid>
-       response: the COLRv0 layers of the glyph `gid pal gid pal …` | - (no layers) | none
 -/
 import FontVerif.Model.SubsetCpal
 import FontVerif.Model.SubsetColr
